@@ -468,3 +468,62 @@ Proof.
   unfold introspect_access, introspect_refresh, lookup_access. cbn [find]. rewrite Ha', Hi'.
   destruct Hr' as [->|[r ->]]; auto.
 Qed.
+
+(* ------------------------------------------------------------------ the same for the hybrid flow (response type "code token"):
+   the code is the second credential the response hands out *)
+Definition code_pos (a : authz) : nat := match az_rtype a with RCodeToken => 1 | _ => 0 end.
+
+Theorem authorize_hybrid_stores_challenge cfg s a :
+  az_rtype a = RCodeToken -> o_err (snd (authorize cfg s a)) = "" ->
+  exists cl, clients s (az_client a) = Some cl /\ pkce_validate cfg (az_challenge a) (az_method a) cl = None /\
+  let s' := fst (authorize cfg s a) in
+  exists k, nth_error (log s') (List.length (log s) + 1) = Some {| i_kind := KCode; i_key := k; i_rid := next_rid s; i_endpoint_token := false |} /\
+    (az_challenge a = "" /\ az_method a = "" -> pkce (st s') k = pkce (st s) k) /\
+    (~ (az_challenge a = "" /\ az_method a = "") ->
+       exists pr, pkce (st s') k = Some pr /\ r_challenge pr = az_challenge a /\ r_method pr = az_method a /\ r_cl pr = cl).
+Proof.
+  intros Hrt. unfold authorize. rewrite Hrt. destruct (cf_par_enforced cfg); [discriminate|].
+  destruct (clients s (az_client a)) as [cl|]; [|discriminate]. unfold authorize_hybrid.
+  repeat match goal with |- context [if ?c then fail s _ else _] => destruct c; [discriminate|] end.
+  destruct (fresh_rid s) as [rid s1] eqn:E1. destruct (fresh_rid_spec _ _ _ E1) as [Hrid [_ [Hst1 [_ [_ [_ Hl1]]]]]].
+  destruct (mint s1 KCode rid) as [k s2] eqn:E2. destruct (mint_spec _ _ _ _ _ E2) as [_ [_ [Hst2 [_ [_ [_ Hl2]]]]]].
+  match goal with |- context [create_code _ k ?r] => set (rec := r) end.
+  destruct (negb (args_has (cl_grants cl) ["implicit"])); [discriminate|].
+  destruct (pkce_validate cfg (az_challenge a) (az_method a) cl) as [e|] eqn:Ev.
+  - cbn. intros He. exfalso. unfold pkce_validate, pkce_no_pkce in Ev.
+    repeat match type of Ev with context [if ?c then _ else _] => destruct c end; try discriminate; injection Ev as <-; discriminate.
+  - match goal with |- context [issue_implicit cfg ?s3 cl a rid ?ec] =>
+      pose proof (issue_implicit_spec cfg s3 cl a rid ec) as SP; destruct (issue_implicit cfg s3 cl a rid ec) as [s4 ein] end.
+    cbn [fst] in SP. destruct SP as [_ [_ [_ [_ [_ [Hp4 [_ [_ [_ [_ [[e4 [Hl4 _]] _]]]]]]]]]]].
+    intros _. exists cl. split; [reflexivity|]. split; [exact Ev|]. cbn [fst]. exists k. subst rid.
+    assert (Hlen : List.length (log s4) = List.length (log s) + 1).
+    { rewrite Hl4. cbn [log set_store]. rewrite app_length, Hl2, Hl1. cbn. reflexivity. }
+    split.
+    + destruct (String.eqb (az_challenge a) "" && String.eqb (az_method a) ""); cbn;
+        rewrite nth_error_app2 by lia; rewrite Hlen, Nat.sub_diag; reflexivity.
+    + cbn [st set_store] in Hp4.
+      assert (Hp : pkce (st s4) = pkce (st s)) by (rewrite Hp4; cbn; now rewrite Hst2, Hst1).
+      destruct (String.eqb_spec (az_challenge a) ""); destruct (String.eqb_spec (az_method a) ""); cbn [andb].
+      * split; [intros _; cbn; now rewrite Hp|intros H; exfalso; auto].
+      * split; [intros [_ H]; contradiction|intros _]. cbn. rewrite upd_eq. eexists. repeat split.
+      * split; [intros [H _]; contradiction|intros _]. cbn. rewrite upd_eq. eexists. repeat split.
+      * split; [intros [H _]; contradiction|intros _]. cbn. rewrite upd_eq. eexists. repeat split.
+Qed.
+
+(* both flows that hand out a code *)
+Theorem authorize_code_stores_challenge cfg s a :
+  az_rtype a <> RToken -> o_err (snd (authorize cfg s a)) = "" ->
+  exists cl, clients s (az_client a) = Some cl /\ pkce_validate cfg (az_challenge a) (az_method a) cl = None /\
+  let s' := fst (authorize cfg s a) in
+  exists k, nth_error (log s') (List.length (log s) + code_pos a) = Some {| i_kind := KCode; i_key := k; i_rid := next_rid s; i_endpoint_token := false |} /\
+    (az_challenge a = "" /\ az_method a = "" -> pkce (st s') k = pkce (st s) k) /\
+    (~ (az_challenge a = "" /\ az_method a = "") ->
+       exists pr, pkce (st s') k = Some pr /\ r_challenge pr = az_challenge a /\ r_method pr = az_method a /\ r_cl pr = cl).
+Proof.
+  intros Hrt Hok. unfold code_pos. destruct (az_rtype a) eqn:E; [|contradiction|].
+  - destruct (authorize_pkce_gate cfg s a E Hok) as [cl [Hcl Hv]].
+    destruct (authorize_stores_challenge cfg s a E Hok) as [cl' [Hcl' H]].
+    assert (cl' = cl) by congruence. subst cl'. exists cl. split; [exact Hcl|]. split; [exact Hv|].
+    rewrite Nat.add_0_r. exact H.
+  - exact (authorize_hybrid_stores_challenge cfg s a E Hok).
+Qed.
